@@ -19,6 +19,7 @@ import itertools
 from typing import Generator, List, Set, Text, TypeVar
 
 from matched_markets.methodology import geoeligibility
+from matched_markets.methodology import _verif_trace
 from matched_markets.methodology import heapdict
 from matched_markets.methodology import tbrmmdata
 from matched_markets.methodology import tbrmmdesign
@@ -354,6 +355,9 @@ class TBRMatchedMarkets:
       tol_max = 1.0 + volume_tol
 
     treatment_group_sizes = self.treatment_group_size_range()
+    if _verif_trace.ENABLED:
+      _verif_trace.emit('exh_start', sizes=list(treatment_group_sizes),
+                        index=list(self.data.geo_index))
     for treatment_group_size in treatment_group_sizes:
 
       # Treatment groups are saved for the purpose of the inclusion check.
@@ -367,10 +371,16 @@ class TBRMatchedMarkets:
           # of response volume.
           if (treatment_share > treatment_share_range[1] or
               treatment_share < treatment_share_range[0]):
+            if _verif_trace.ENABLED:
+              _verif_trace.emit('exh_trt', group=sorted(treatment_group),
+                                verdict='share')
             continue
         elif skip_if_subset(treatment_group):
           # If the group is a superset of a group that we already know has too
           # high a share or budget, then skip this group too.
+          if _verif_trace.ENABLED:
+            _verif_trace.emit('exh_trt', group=sorted(treatment_group),
+                              verdict='pattern')
           continue
         y = self.data.aggregate_time_series(treatment_group)
         diag = TBRMMDiagnostics(y, self.parameters)
@@ -383,16 +393,28 @@ class TBRMatchedMarkets:
               # We skip all treatment groups that are a superset of a treatment
               # group that has too high an estimated budget.
               skip_treatment_geo_patterns.append(treatment_group)
+              if _verif_trace.ENABLED:
+                _verif_trace.emit('exh_trt', group=sorted(treatment_group),
+                                  verdict='high_saved')
               continue
             # If the budget is too low, skip this treatment group.
           elif req_budget < budget_range[0]:
+            if _verif_trace.ENABLED:
+              _verif_trace.emit('exh_trt', group=sorted(treatment_group),
+                                verdict='low')
             continue
+        if _verif_trace.ENABLED:
+          _verif_trace.emit('exh_trt', group=sorted(treatment_group),
+                            verdict='eval')
         control_groups = self.control_group_generator(treatment_group)
         for control_group in control_groups:
           if volume_tol is not None:
             control_share = self.data.aggregate_geo_share(control_group)
             xy_share = control_share / treatment_share
             if xy_share > tol_max or xy_share < tol_min:
+              if _verif_trace.ENABLED:
+                _verif_trace.emit('exh_ctl', trt=sorted(treatment_group),
+                                  ctl=sorted(control_group), verdict='volume')
               continue
           diag.x = self.data.aggregate_time_series(control_group)
           corr = diag.corr  # pylint: disable=unused-variable
@@ -400,6 +422,9 @@ class TBRMatchedMarkets:
           req_budget = req_impact / self.parameters.iroas
           if (budget_range is not None and (self._constraint_not_satisfied(
               req_budget, budget_range[0], budget_range[1]))):
+            if _verif_trace.ENABLED:
+              _verif_trace.emit('exh_ctl', trt=sorted(treatment_group),
+                                ctl=sorted(control_group), verdict='budget')
             continue
 
           # deepcopy is needed otherwise diag.corr gets overwritten, and so
@@ -419,6 +444,9 @@ class TBRMatchedMarkets:
               design_score, treatment_group, control_group,
               copy.deepcopy(diag))
           results.push(0, design)
+          if _verif_trace.ENABLED:
+            _verif_trace.emit('exh_ctl', trt=sorted(treatment_group),
+                              ctl=sorted(control_group), verdict='push')
 
     self._search_results = results
     return self.search_results()
@@ -588,6 +616,11 @@ class TBRMatchedMarkets:
       needs_matching = True
 
     k = kappa_0
+    if _verif_trace.ENABLED:
+      _verif_trace.emit('greedy_start', k=k, trt=sorted(group_star_trt[k]),
+                        ctl=sorted(group_ctl), needs_matching=needs_matching,
+                        max_treatment_size=max_treatment_size,
+                        index=list(self.data.geo_index))
     while (k < max_treatment_size) | (needs_matching):
       # Find the best control group given the current treatment group
       if needs_matching:
@@ -635,10 +668,16 @@ class TBRMatchedMarkets:
 
         if current_score > TBRMMScore(current_design):
           group_ctl = group_ctl_tmp
+          if _verif_trace.ENABLED:
+            _verif_trace.emit('greedy_match_move', k=k, ctl=sorted(group_ctl))
         else:
           group_star_ctl[k] = group_ctl_tmp
           score_star[k] = current_score
           needs_matching = False
+          if _verif_trace.ENABLED:
+            _verif_trace.emit('greedy_match_freeze', k=k,
+                              trt=sorted(group_star_trt[k]),
+                              ctl=sorted(group_ctl_tmp))
       # add one geo to treatment given the current control group
       elif k < max_treatment_size:
         r_treatment = self.geo_assignments.t - group_star_trt[k]
@@ -676,6 +715,9 @@ class TBRMatchedMarkets:
         group_star_trt[k+1] = group_trt
         k = k + 1
         needs_matching = True
+        if _verif_trace.ENABLED:
+          _verif_trace.emit('greedy_augment', k=k, trt=sorted(group_trt),
+                            ctl=sorted(group_ctl))
 
     # if some geos are fixed to treatment, we did not check that the design
     # with treatment group = {all geos fixed in treatment} and control group =
@@ -712,6 +754,9 @@ class TBRMatchedMarkets:
             design_score, group_star_trt[k], group_star_ctl[k],
             copy.deepcopy(design_diag))
         results.push(0, design)
+        if _verif_trace.ENABLED:
+          _verif_trace.emit('greedy_keep', k=k, trt=sorted(group_star_trt[k]),
+                            ctl=sorted(group_star_ctl[k]))
 
     self._search_results = results
     return self.search_results()
